@@ -24,7 +24,23 @@ import (
 	"verifharness/storex"
 )
 
-func main() { hx.Main(run, "", nil, nil) }
+func main() {
+	hx.Main(run, "", nil, map[string]func(args []string) error{"probe": probe})
+}
+
+func probe(args []string) error {
+	sop.RetryStartDuration = time.Millisecond
+	h := thist{t1Write: "upd1", end: "commit"}
+	if len(args) > 0 {
+		h.rounds = strings.Split(args[0], ",")
+	}
+	o := runHist(context.Background(), h)
+	fmt.Println(h, "->", o.res, o.errText, o.setupErr, "interfOK", o.interfOK)
+	for _, l := range o.trace {
+		fmt.Println("  ", l)
+	}
+	return nil
+}
 
 type result struct {
 	b   btree.BtreeInterface[int, string]
@@ -729,6 +745,7 @@ func run(o hx.RunOpts) error {
 		corpusRemoveRecreate(ctx, s, true)
 	}
 	runLock(ctx, s, o, p.Fork())
+	runTxHist(ctx, s, o, p.Fork())
 	n := o.N(1200, 10000)
 	for i := 0; i < n; i++ {
 		repl := false
